@@ -270,7 +270,7 @@ def run(prog: Program, rep, tier="quick"):
     g = cfg_of(prog, fl)
     calls = [i for i, n in g.nodes.items() for c in node_calls(n) if callee_name(c) in filters]
     rets = [i for i, n in g.nodes.items() if n.kind == "stmt" and isinstance(n.ast, ast.Return)]
-    single = [i for i, n in g.nodes.items() if n.kind == "test" and "len(" in norm(n.ast) and "> 1" in norm(n.ast)]
+    single = [i for i, n in g.nodes.items() if n.kind == "test" and "len(" in norm(n.ast) and ("> 1" in norm(n.ast) or "1 < len(" in norm(n.ast))]
     r = reach(g, [g.entry], avoid=set(calls), include_srcs=True, edge_ok=lambda a, b, l: not (a in single and l == "false"))
     rep.ob("R13.3", "dulwich/graph.py", "_find_lcas", "a result with more than one candidate passes a reachability-based redundancy filter",
            bool(filters) and bool(calls) and not any(x in r for x in rets),
